@@ -14,7 +14,7 @@
 //
 // SPDX-License-Identifier: Apache-2.0
 
-use super::Mutator;
+use super::{should_mutate, Mutator};
 use crate::generator::{EntropySource, GenerationSource};
 
 /// Mutates memo indices to reference different slots (potentially invalid).
@@ -40,7 +40,7 @@ impl Mutator for MemoIndexMutator {
         source: &mut GenerationSource,
         rate: f64,
     ) -> Option<usize> {
-        if source.gen_f64() > rate {
+        if !should_mutate(source, rate) {
             return None;
         }
 
